@@ -74,6 +74,7 @@ structure WCfg where
   tplusOn : Bool
   reinvest : Bool
   forced : Bool
+  matchImmediately : Bool        -- matching type current_bar / vwap: every submission triggers a matching round
 
 /-- what the data layer answers about one instrument on one trading day -/
 structure DayIns where
@@ -106,6 +107,7 @@ inductive WIn
   | preBeforeTrading (today : Nat) (taxRate : R) (mkt : List DayIns)
   | beforeTrading
   | openAuction
+  | barData (rows : List (Nat × Option R × MBar))     -- a new bar of a sub-daily frequency: per instrument its close and the matcher's inputs
   | bar
   | afterTrading
   | settlement
@@ -357,8 +359,10 @@ def World.submit (w : World) (o : OrderReq) : World × List WEv :=
                            initFrozen := init }
         let w2 := if w1.phase == .auction then { w1 with auctionOrders := w1.auctionOrders ++ [ord] }
                   else { w1 with openOrders := w1.openOrders ++ [ord] }
-        let (w3, evs) := w2.matchRound
-        (w3, [.order (.pendingNew o.id), .order (.creationPass o.id)] ++ evs)
+        if w2.cfg.matchImmediately then
+          let (w3, evs) := w2.matchRound
+          (w3, [.order (.pendingNew o.id), .order (.creationPass o.id)] ++ evs)
+        else (w2, [.order (.pendingNew o.id), .order (.creationPass o.id)])
   | _, _ => (w, [.noMarket o.id])
 
 /-- `cancel_order(order)` -/
@@ -446,8 +450,15 @@ def World.stInput (w : World) : STInput :=
 def World.settlement (w : World) : World :=
   (List.range w.pf.accounts.length).foldl (fun (w : World) (k : Nat) => w.apply k (.settlement w.stInput)) w
 
+/-- the data layer moves on to the next bar (minute frequency): last prices and matcher inputs of the instruments that have one -/
+def World.barData (w : World) (rows : List (Nat × Option R × MBar)) : World :=
+  { w with mkt := w.mkt.map (fun d => match rows.find? (·.1 == d.ins) with
+      | some r => { d with close := r.2.1, bar := { r.2.2 with listedToday := d.bar.listedToday } }
+      | none => d) }
+
 def World.step (w : World) : WIn → World × List WEv
   | .preBeforeTrading today tax mkt => (w.preBeforeTrading today tax mkt, [])
+  | .barData rows => (w.barData rows, [])
   | .beforeTrading => w.beforeTrading
   | .openAuction => ({ w with phase := .auction }, [])
   | .bar => w.onBar
